@@ -569,7 +569,7 @@ class _Metrics:
         REC.ev("associateShape", rank)
 
     def getIter(self):
-        return ()
+        return []
 
     def consumeTrace(self, rank, type_):
         REC.ev("consumeTrace", rank, type_)
@@ -598,11 +598,11 @@ class _Traffic:
     def filterTrace(self, src, by, dst):
         REC.ev("filterTrace", src, by, dst)
 
-    def buffetTraffic(self, bindings, formats, traces, capacity, line):
+    def buffetTraffic(self, bindings, formats, traces, capacity, line, rank_map=None):
         REC.ev("buffetTraffic", dict(traces))
         return _TrafficResult()
 
-    def cacheTraffic(self, bindings, formats, traces, capacity, line):
+    def cacheTraffic(self, bindings, formats, traces, capacity, line, rank_map=None):
         REC.ev("cacheTraffic", dict(traces))
         return _TrafficResult()
 
